@@ -1,5 +1,6 @@
 import NA.Proofs.C15Guard
 import NA.Proofs.C15Dec
+import NA.Proofs.C15Full
 /-!
 # C15 — IOS changes always run under a reload guard and survive its banners
 
@@ -383,6 +384,63 @@ theorem banner_invariant_partial (gs : List Chg) (st : St SimSt) (q : List Behav
       cases f2
       exact ⟨ci, R, R0, e1, f1, by rw [e3, f3]⟩
 
+/-- **banner_invariant for the whole run** (scripts whose outputs are all accepted): the complete
+`ApplyCommands` dialogue against the scripted device — preparation, `reload in 2` + confirmation,
+the changes, deferred `end`, `reload cancel`, `write memory` — succeeds with and without banners,
+with the same warnings, no reload pending, and transcripts that differ exactly by the re-arm
+exchanges inside the change phase. -/
+theorem banner_invariant_run (gs : List Chg) (q : List Behav) (st0 : St SimSt)
+    (hp : st0.pend = []) (ht : st0.trace = []) (hparts : st0.dev.parts = [])
+    (hq : st0.dev.queue = gs.flatMap Chg.behavs ++ q) (hc : ∀ g ∈ gs, g.Clean ∧ g.NoProbeFirst)
+    (hok : specOk gs = true) :
+    let pre := prepCmds ++ [reloadCmd, lit "n", []] ++ [confCmd]
+    let suf := [endCmd] ++ [cancelCmd, []] ++ [writeCmd]
+    let o := applyCommands (simDevice []) true (gs.map Chg.cmd) st0
+    let o0 := applyCommands (simDevice []) true ((gs.map Chg.plain).map Chg.cmd)
+      { st0 with dev := { st0.dev with queue := (gs.map Chg.plain).flatMap Chg.behavs ++ q } }
+    o.1 = .ok () ∧ o0.1 = .ok () ∧
+    o.2.trace = pre ++ specTrace gs ++ suf ∧
+    o0.2.trace = pre ++ (specTrace gs).filter notRearm ++ suf ∧
+    o.2.warns = o0.2.warns ∧
+    pendingAfter (linesOf o.2.trace) = false := by
+  intro pre suf o o0
+  have h := apply_sim_ok gs q st0 hp ht hparts hq hc hok
+  have h0 := apply_sim_ok (gs.map Chg.plain) q
+    { st0 with dev := { st0.dev with queue := (gs.map Chg.plain).flatMap Chg.behavs ++ q } }
+    hp ht hparts rfl (by
+      intro g hg
+      obtain ⟨g', hg', rfl⟩ := List.mem_map.1 hg
+      exact ⟨Chg.plain_clean g' (hc g' hg').1, Chg.plain_noProbe g'⟩)
+    (by rw [specOk_plain]; exact hok)
+  rw [specWarns_plain] at h0
+  have hclean : CleanCs (gs.map Chg.cmd) := by
+    intro c hcm
+    obtain ⟨g, hg, rfl⟩ := List.mem_map.1 hcm
+    have hcl := (hc g hg).1
+    have hchg : ∀ c, ChangeCmd c → ∀ x ∈ splitOnNL c, x ≠ cancelCmd ∧ x ≠ writeCmd := by
+      intro c hcc x hx
+      rw [splitOnNL_no_nl c hcc.clean.noNL] at hx
+      simp at hx; subst hx
+      have hch := hcc.change
+      constructor
+      · intro e; rw [e] at hch; revert hch; decide
+      · intro e; rw [e] at hch; revert hch; decide
+    cases g with
+    | one c b => exact hchg c hcl.cmds
+    | two c1 c2 b1 b2 =>
+      intro x hx
+      show x ≠ cancelCmd ∧ x ≠ writeCmd
+      have : splitOnNL (c1 ++ '\n' :: c2) = splitOnNL c1 ++ splitOnNL c2 := splitOnNL_append_nl c1 c2
+      simp only [Chg.cmd] at hx
+      rw [this] at hx
+      rcases List.mem_append.1 hx with h | h
+      · exact hchg c1 hcl.cmds.1 x h
+      · exact hchg c2 hcl.cmds.2 x h
+  refine ⟨h.1, h0.1, ?_, ?_, by rw [h.2.2.1, h0.2.2.1], ?_⟩
+  · rw [h.2.1]; simp [fullTrace, pre, suf]
+  · rw [h0.2.1, fullTrace, specTrace_plain gs (fun g hg => (hc g hg).1)]; simp [pre, suf]
+  · exact no_reload_pending_after_success (simDevice []) true _ hclean st0 ht h.1
+
 /-- **rearm_on_one_minute** (model of the repaired code).  In a script whose outputs are all
 accepted, for every element `g` (single command or joined line, at any position): its `Send` is
 followed by exactly one `do reload in 2` / `n` / confirmation exchange if the answer to ANY of its
@@ -474,7 +532,7 @@ example :
 def obligations : List Lean.Name :=
   [``guard_brackets_changes, ``write_only_if_all_accepted, ``no_reload_pending_after_success,
    ``cancel_on_failure_partial, ``cancel_gap_counterexample,
-   ``banner_invariant_partial, ``banner_invariant_counterexample,
+   ``banner_invariant_partial, ``banner_invariant_run, ``banner_invariant_counterexample,
    ``rearm_on_one_minute, ``rearm_unfixed_counterexample]
 
 end NA.Ios
